@@ -23,6 +23,7 @@ EXPLANATION = (
 EXPLANATION += ' Added after the seeded-change rounds: ' + "D1 also: both branches of freeSmallObject link the START of the object (findObjectToFree at the call site or in the callee); D4: an internalPoolMalloc result whose address is moved (alignUp) comes from a request bounded strictly below internalPoolMalloc's own large-object threshold."
 EXPLANATION += ' Added in the third session (round-3 seeds and the findings they led to): ' + 'D5: a region is remapped (mremap) only on a branch edge where it is known to hold a single block.'
 EXPLANATION += ' Added in the fourth round of seeded changes: ' + 'D2 also: once the result of the allocation is known to be non-null every path of scalable_calloc to its return passes the memset.'
+EXPLANATION += ' Added in the fifth round: ' + 'D2 also: the calloc overflow rules of C18-D1 (shared): the product of the factors is tested before the allocation and the exact test is skipped only when both factors are small.'
 ASSUMPTIONS = ['FREELIST_NONBLOCKING configuration (the shipped one)', 'Linux configuration']
 ND = ['disjointness of live blocks', 'alignment of results', 'scalable_msize >= request', 'size-class and bin arithmetic',
       'boundary-tag coalescing', 'never writing into a live block']
